@@ -270,7 +270,38 @@ type state struct {
 // exec runs one op. It never lets a panic escape.
 var envTag = os.Getenv("VERIF_ENVTAG")
 
+// observable is what two results of the same call are compared by.
+func observable(r *plan.Res) string {
+	s := r.Out + "|"
+	if r.Err != nil {
+		s += r.Err.Msg + fmt.Sprint(r.Err.WordLen, r.Err.EntLen, r.Err.Checksum)
+	}
+	if r.B != nil {
+		s += fmt.Sprint("|", *r.B)
+	}
+	if r.Panic != "" {
+		s += "|panic"
+	}
+	return s
+}
+
 func (st *state) exec(op *plan.Op, shared *scripted) (res plan.Res) {
+	if op.Rep > 1 {
+		// the same call many times in a row (counters that wrap, tables that fill up)
+		one := *op
+		one.Rep = 0
+		res = st.exec(&one, shared)
+		want := observable(&res)
+		for k := 1; k < op.Rep; k++ {
+			r := st.exec(&one, shared)
+			if got := observable(&r); got != want {
+				res.Info = append(res.Info, "rep-diverged-at="+strconv.Itoa(k), "rep-diverged-out="+r.Out, "rep-diverged-err="+fmt.Sprint(r.Err != nil), "rep-diverged-panic="+strconv.FormatBool(r.Panic != ""))
+				break
+			}
+		}
+		res.Info = append(res.Info, "rep="+strconv.Itoa(op.Rep))
+		return res
+	}
 	res.I = op.I
 	res.Env = envTag
 	// decode arguments before the clock starts
